@@ -71,19 +71,23 @@ _Q = "kani/query/evaluator.rs"
 PROPS["C20"] = {
     "title": "ORDER BY sorts and SKIP/LIMIT slice it",
     "kani": [(_Q, r"^c20_")],
-    "e2": [],
+    "e2": ["c20"],
     "functions_encoded": ["nervusdb_query::evaluator::order_compare", "evaluator_compare::order_compare_non_null",
-                          "evaluator_compare::compare_f64_with_nan", "evaluator_compare::value_order_rank"],
+                          "evaluator_compare::compare_f64_with_nan", "evaluator_compare::value_order_rank",
+                          "plan_tail::evaluate_row_window_expression", "plan_tail::execute_skip", "plan_tail::execute_limit"],
     "bounds": {"values": "all i64 / f64 (incl. NaN, +-inf, +-0, subnormals) / bool / DateTime bit patterns per shape triple",
                "shapes": "kind triples over {Int, Float, NaN, Bool, DateTime, Null} listed in coverage.samples"},
     "stubs": [],
     "assumptions": ["slice::sort_by (stable merge sort) and Iterator::skip/take are trusted std"],
     "outside_claim": ["strings (compare_strings_with_temporal parses with chrono), lists, maps, paths, nodes/relationships",
-                      "multi-key ORDER BY loop, DESC reversal, SKIP/LIMIT window arithmetic (E2 obligation O2)"],
+                      "multi-key ORDER BY loop, DESC reversal"],
     "level_text": "Bounded model checking (Kani/CBMC) of the real comparator behind ORDER BY: for every listed kind triple and all "
                   "payload bit patterns, order_compare is reflexive, antisymmetric, transitive, Equal is an equivalence, kinds are "
                   "ranked as documented, NaN sorts above numbers, Null last, and Int vs Float follows the exact numeric order. "
-                  "Partial: decides the comparator laws a sort needs on scalar kinds, not the whole ORDER BY pipeline.",
+                  "Plus path-wise symbolic execution (z3) of the SKIP/LIMIT window: the window size is exactly the evaluated non-negative "
+                  "integer (no clamping/wrap), anything else is an error, and execute_skip/execute_limit pass exactly that number to "
+                  "Iterator::skip/take on the input plan's iterator. Partial: comparator laws on scalar kinds and window arithmetic, "
+                  "not the whole ORDER BY pipeline.",
     "level_note": "Trusted: Kani/CBMC/CaDiCaL, std sort. Strings, collections and graph values are outside the claim.",
     "design_ref": "DESIGN.md section 3, C20",
 }
@@ -371,4 +375,23 @@ PROPS["C19"] = {
                   "forwarded; no row is emitted twice, reordered or skipped for another reason; None only at end of input.",
     "level_note": "Trusted: rustc MIR dump, E2 translator and stream model, z3.",
     "design_ref": "DESIGN.md section 3, C19",
+}
+
+PROPS["C14"] = {
+    "title": "No dangling relationships",
+    "kani": [],
+    "e2": ["c14"],
+    "functions_encoded": ["executor::create_delete_ops::ensure_non_detach_delete_safety"],
+    "bounds": {"nodes to delete": "<= 1 (quick) / 2 (thorough)", "attached relationships": "<= 1 (quick) / 2 (thorough) outgoing and as many incoming per node",
+               "explicit set membership": "symbolic per relationship", "detach flag": "symbolic"},
+    "stubs": ["snapshot.neighbors / incoming_neighbors -> symbolic relationship streams; HashSet modelled as an insertion-ordered list; "
+              "HashSet::contains -> both outcomes"],
+    "assumptions": ["the check is a function of the snapshot it is given"],
+    "outside_claim": ["the snapshot consulted is the pre-statement one: relationships created earlier in the same statement/transaction are invisible "
+                      "to this check (not encodable here)", "tombstone blocking in the storage neighbour iterators"],
+    "level_text": "Partial and thin: path-wise symbolic execution (z3) of the non-DETACH delete safety kernel: for every combination of "
+                  "attached outgoing/incoming relationships and explicit-delete membership, the delete is refused iff some attached "
+                  "relationship is not deleted too; DETACH is always accepted; every attached relationship is checked.",
+    "level_note": "Trusted: rustc MIR dump, E2 translator and iterator/set models, z3.",
+    "design_ref": "DESIGN.md section 3, C14",
 }
